@@ -54,7 +54,7 @@ CHECKS["C12"] = dict(
     text="TLC enumerates ALL mixture configurations of a bounded space (1-3 components quick, 1-4 thorough; absolute / percent / unspecified; value sets that "
          "produce consistent, over-100, under-100 and contradictory totals; with and without caller-supplied system mass), solves each with the reference "
          "solver of spec/Mixture.tla in exact rationals, checks the model theorems (sum to 100, abs = pct*S/100, user values kept), and every configuration is "
-         "replayed into the real System: outcome class and every mass / percentage compared, then str -> re-parse -> masses again.",
+         "replayed into the real System: outcome class and every mass / percentage compared, then str -> re-parse -> masses again. The linked setters of one Mixture object are a state machine of their own (MixtureObject.tla, exact rationals): TLC explores every sequence of setter calls after construction over a grid of values (zero, negative, above 100), checks Linked / Ranges / AbsKeptBySetRel, and every history is stepped through the real object.",
     design_ref="DESIGN.md 4/C12",
     note="Trusted: TLC, the reference solver as transcription of the statement. Exhaustive within the value sets. Component masses are read from System._molecules (no public accessor).",
     technique="TLA+ reference solver + TLC exhaustive enumeration of configurations; each configuration replayed into the implementation",
